@@ -36,7 +36,12 @@ META["text"] = (
     "mj_compile as a whole): random articulated models are written out explicitly and re-spelled five ways -- orientations as axisangle/euler/xyaxes/zaxis with degree and eulerseq options; bodies and "
     "geoms wrapped in 1-3 nested frames; joint and geom attributes through three nested default classes and childclass; a subtree built in a child spec and attached with mjs_attach; fusestatic on/off -- "
     "both are compiled, run through mj_forward and 100 steps, and the poses of all kept bodies must agree to 1e-9 (fusestatic: 1e-6, because the fused inertia goes through mjuu_eig3 whose designed accuracy "
-    "is ~1e-6 rad, see C35; measured ~1e-9). NOT covered: XML-only spellings and <replicate> (no XML parser in this build), discardvisual, mj_setConst after runtime edits, default classes inside "
+    "is ~1e-6 rad, see C35; measured ~1e-9). RUNTIME EDITS (round 4, oracle only -- mj_setConst is engine code outside the Coq models): for every generated model (a ball joint is put on the last moving body of most of them, so nq > nv with the "
+    "quaternion coordinates trailing) the base spec is compiled and simulated 40-150 steps, then real-valued parameters are edited in mjModel (mass and inertia of 1-2 bodies scaled, a body position, a joint's armature "
+    "or damping, a spring reference) and mj_setConst is called on the used mjData; the same edits are made in the spec, which is recompiled; every derived constant (body_subtreemass, body_invweight0, dof_M0, "
+    "dof_invweight0, qpos0, qpos_spring, the statistics, and the edited parameters) must agree to 1e-9, must be the same after mj_resetData + mj_setConst (independence of the scratch state), and both models continued "
+    "from the saved state for 100 steps must give the same poses (1e-9). "
+    "NOT covered: XML-only spellings and <replicate> (no XML parser in this build), discardvisual, runtime edits of tendon / actuator / equality parameters (the generated models have none), default classes inside "
     "attached child specs, name prefixing of non-body elements.")
 META["note"] = ("Trusted: Coq kernel + standard-library real-number axioms listed in trusted_base; hand-written models; Lib/FloatFn.v (executable side); "
                 "harness (driver c36_equiv.cc, python pose algebra of the rewritings).")
@@ -589,6 +594,130 @@ def check_joint_angles(ctx, M, v, o, jw, case, jlits):
     return n
 
 
+def setconst_request(M, rng, nsteps=100):
+    """runtime edit + mj_setConst versus recompiling the edited spec.  Returns (request text, description of the edits)."""
+    import copy
+    Mb = copy.deepcopy(M)
+    moving = [b for b in Mb["bodies"] if b["joint"] is not None]
+    # reach nq > nv with the quaternion coordinates in trailing positions: a ball joint on the last moving body (most models)
+    if moving and rng.random() < 0.7 and moving[-1]["joint"]["type"] != 0:
+        moving[-1]["joint"]["type"] = 1
+        moving[-1]["joint"]["ang"] = rand_joint_angles(rng, 1)
+    M2 = copy.deepcopy(Mb)
+    edits, descr = [], []
+    for b in rng.sample(M2["bodies"], k=min(len(M2["bodies"]), rng.choice([1, 2]))):
+        sc = rng.uniform(0.4, 2.5)
+        b["geom"]["attr"]["dens"] *= sc
+        edits.append("rt bmass %s %s" % (b["name"], hx(sc)))
+        descr.append({"edit": "scale mass and inertia (density)", "body": b["name"], "factor": sc})
+    cand = [b for b in M2["bodies"] if b["joint"] is None or b["joint"]["type"] != 0]
+    if cand and rng.random() < 0.8:
+        b = rng.choice(cand)
+        b["pos"] = [rng.uniform(-0.4, 0.4) for _ in range(3)]
+        edits.append("rt bpos %s %s" % (b["name"], " ".join(hx(x) for x in b["pos"])))
+        descr.append({"edit": "body pos", "body": b["name"], "pos": b["pos"]})
+    mj = [b for b in M2["bodies"] if b["joint"] is not None]
+    if mj:
+        b = rng.choice(mj)
+        k = rng.choice(["arm", "damp"])
+        v = rng.uniform(0.01, 0.5)
+        b["joint"]["attr"][k] = v
+        edits.append("rt %s %s %s" % ("jarm" if k == "arm" else "jdamp", b["joint"]["name"], hx(v)))
+        descr.append({"edit": "joint " + k, "joint": b["joint"]["name"], "value": v})
+        hs = [b for b in mj if b["joint"]["type"] in (2, 3)]
+        if hs and rng.random() < 0.5:
+            b = rng.choice(hs)
+            v = rng.uniform(-0.3, 0.3)
+            b["joint"]["ang"]["sref"] = v
+            edits.append("rt jsref %s %s" % (b["joint"]["name"], hx(v)))
+            descr.append({"edit": "springref", "joint": b["joint"]["name"], "value": v})
+    def cmds_of(model):
+        txt, _, _ = render(model, "base", rng, nsteps)
+        assert txt.startswith("M ")
+        return txt[2:txt.index(" qvel ")]
+    presteps = rng.choice([40, 80, 150])
+    req = "M spec 0 %s spec 2 %s spec 0 %s presteps %d recompile qvel 0.7 sim %d" % (cmds_of(Mb), cmds_of(M2), " ".join(edits), presteps, nsteps)
+    return req, {"edits": descr, "presteps": presteps, "base": Mb, "edited": M2}
+
+
+def const_labels(nb, nv, nq):
+    L = []
+    for b in range(1, nb + 1):
+        L += ["body_mass[%d]" % b, "body_subtreemass[%d]" % b] + ["body_inertia[%d][%d]" % (b, k) for k in range(3)] + ["body_invweight0[%d][%d]" % (b, k) for k in range(2)] + \
+             ["body_pos[%d][%d]" % (b, k) for k in range(3)]
+    for v in range(nv):
+        L += ["dof_M0[%d]" % v, "dof_invweight0[%d]" % v, "dof_armature[%d]" % v, "dof_damping[%d]" % v]
+    for q in range(nq):
+        L += ["qpos0[%d]" % q, "qpos_spring[%d]" % q]
+    return L + ["stat.meaninertia", "stat.meanmass", "stat.meansize", "stat.extent", "stat.center[0]", "stat.center[1]", "stat.center[2]"]
+
+
+def run_setconst(ctx, exe, models):
+    rng = ctx.rng
+    reqs, infos = [], []
+    for M in models:
+        r, info = setconst_request(M, rng)
+        reqs.append(r)
+        infos.append(info)
+    rc, out, err = ctx.run(exe, "".join(r + "\n" for r in reqs))
+    lines = out.strip("\n").split("\n")
+    stat = {"requests": len(reqs), "models_with_nq_gt_nv": 0, "worst_constant_error": 0.0, "worst_pose_error": 0.0, "worst_state_dependence": 0.0}
+    if rc != 0 or len(lines) != len(reqs):
+        ctx.broken.append(("correspondence", "driver c36_equiv failed (setconst)", "rc=%s lines=%d/%d %s" % (rc, len(lines), len(reqs), err[-500:])))
+        return stat
+    sig = {"site": "mj_setConst", "rewriting": "setconst"}
+    for req, info, l in zip(reqs, infos, lines):
+        case = {"rewriting": "setconst", "edits": info["edits"], "presteps": info["presteps"], "model": info["base"], "request": req[:6000]}
+        t = l.split()
+        if not t or t[0] != "ok":
+            ctx.violation("impl_violation", case, expected="base and edited spec compile, mj_setConst runs", observed=l[:300], theorem="C36 oracle (mj_setConst)", signature=sig)
+            continue
+        n = int(t[1])
+        A = [unhx(x) for x in t[3:3 + n]]
+        B = [unhx(x) for x in t[4 + n:4 + 2 * n]]
+        Cc = [unhx(x) for x in t[5 + 2 * n:5 + 3 * n]]
+        k = 5 + 3 * n
+        assert t[2] == "A" and t[3 + n] == "B" and t[4 + 2 * n] == "C" and t[k] == "P"
+        nb = int(t[k + 1]); k += 2
+        nq = sum(1 for b in info["base"]["bodies"] if b["joint"]) and None
+        # recover nv, nq from the count: n = 10 nb + 4 nv + 2 nq + 7
+        jts = [b["joint"]["type"] for b in info["base"]["bodies"] if b["joint"]]
+        nv = sum({0: 6, 1: 3, 2: 1, 3: 1}[j] for j in jts)
+        nq = sum({0: 7, 1: 4, 2: 1, 3: 1}[j] for j in jts)
+        labels = const_labels(nb, nv, nq) if 10 * nb + 4 * nv + 2 * nq + 7 == n else ["constant %d" % i for i in range(n)]
+        if nq > nv:
+            stat["models_with_nq_gt_nv"] += 1
+        def cmp(X, Y, what, key):
+            worst, wi = 0.0, -1
+            for i, (x, y) in enumerate(zip(X, Y)):
+                e = abs(x - y) / (1 + abs(x) + abs(y)) if not (math.isnan(x) and math.isnan(y)) else 0.0
+                if e > worst or e != e:
+                    worst, wi = (e if e == e else 1.0), i
+            stat[key] = max(stat[key], worst)
+            if worst > 1e-9:
+                bad = [(labels[i], X[i], Y[i]) for i in range(n) if abs(X[i] - Y[i]) > 1e-9 * (1 + abs(X[i]) + abs(Y[i]))][:8]
+                ctx.violation("impl_violation", case, expected=what, observed={"(constant, after runtime edit + mj_setConst, reference)": bad},
+                              theorem="C36 oracle (runtime edit + mj_setConst = recompiling the edited spec)", signature=sig)
+                return True
+            return False
+        if cmp(A, B, "every derived constant equals that of the recompiled edited spec (relative 1e-9)", "worst_constant_error"):
+            continue
+        if cmp(A, Cc, "mj_setConst does not depend on the state of the scratch mjData: the same constants after mj_resetData + mj_setConst", "worst_state_dependence"):
+            continue
+        for _ in range(nb):
+            nm = t[k]
+            p1 = [unhx(x) for x in t[k + 1:k + 8]]
+            p2 = [unhx(x) for x in t[k + 8:k + 15]]
+            k += 15
+            e = pose_err(p1, p2)
+            stat["worst_pose_error"] = max(stat["worst_pose_error"], e)
+            if e > 1e-9:
+                ctx.violation("impl_violation", case, expected={"body": nm, "pose after the steps, recompiled edited spec": p2}, observed={"pose after the steps, runtime edit + mj_setConst": p1, "error": e},
+                              theorem="C36 oracle (runtime edit + mj_setConst = recompiling the edited spec)", signature=sig)
+                break
+    return stat
+
+
 VARIANTS = ["orient", "frames", "defaults", "attach", "fuse"]
 # fusestatic sends the fused inertia through mjuu_eig3, whose Jacobi loop stops below ~1.4e-6 rad (see C35): the fused body's principal
 # axes are only that accurate, so trajectories of the kept bodies agree to ~1e-8 rather than 1e-9; the other rewritings do not touch inertia.
@@ -695,7 +824,9 @@ def run_models(ctx, exe):
     ctx.cov["support"]["trajectory_body_comparisons"] = ncmp
     ctx.cov["support"]["bodies_that_moved_more_than_1e-4"] = moved
     ctx.cov["support"]["joint_angle_attributes_checked"] = nj_checked
-    return dlits, jlits, {"models": len(models), "compiles": len(reqs)}
+    sc = run_setconst(ctx, exe, models)
+    ctx.cov["support"]["setconst"] = sc
+    return dlits, jlits, {"models": len(models), "compiles": len(reqs) + 2 * sc.get("requests", 0)}
 
 
 def run(ctx):
@@ -727,6 +858,6 @@ def run(ctx):
     ctx.cov["samples"] = [{"resolve_case": rlits[0][:300]}, {"resolve_case": rlits[len(rlits) // 2][:300]}, {"default_case": (dlits[0][:300] if dlits else "")}]
     ctx.cov["correspondence_disagreements"] = len(fails)
     ctx.cov["support"]["models"] = mstat
-    ctx.cov["support"]["not_covered"] = "XML-only spellings, <replicate>, discardvisual, mj_setConst after runtime edits, attach name-prefixing of non-body elements, default classes in attached child specs"
+    ctx.cov["support"]["not_covered"] = "XML-only spellings, <replicate>, discardvisual, runtime edits of tendon/actuator/equality parameters, attach name-prefixing of non-body elements, default classes in attached child specs"
     ctx.cov["explanation"] = ("theorems of Props/C36.v proved; mjs_resolveOrientation tied on %d calls, default-class model on %d joints; %d models compiled in 6 spellings each"
                               % (nres, len(dlits), mstat.get("models", 0)))
